@@ -31,16 +31,38 @@ TEXT = {
             "each, covering all iterators, reference forms, dense co-iteration, project / prune and lazy re-iteration, "
             "compared with a list model; tree snapshots before/after.",
             "Trusts the builders; start_pos restricted to legal shortcuts; U format without custom active range; shapes<=8."),
+    "C11": ("Exhaustive operator matrix + Hypothesis PBT on fiber pairs vs Python operators on the unboxed values",
+            "All 131 cells of the operator x operand-kind matrix enumerated with a fixed value table and sampled with drawn "
+            "ints / dyadic floats; result value and type, operand immutability, same-box identity for in-place forms; "
+            "fiber + * += *= against a dict model incl. disjoint / empty / explicit-default operands.",
+            "Operators taken from the Payload / CoordPayload class docstrings; fibers with default 0 and a declared shape."),
     "C12": ("Hypothesis PBT: representation-fuzzed and single-leaf-edited tree pairs/triples vs dict content model",
             "Generated pairs/triples of trees derived from one content (equal by construction, or differing in one leaf) "
             "compared with an independent point->value model; no exhaustive claim.",
             "Trusts the TreeSpec->Fiber/Tensor builders (public constructors only) and the dict model in vf/model.py; "
             "depth<=3, shapes<=7."),
+    "C13": ("Hypothesis PBT: round-trip oracles (nest -> tensor -> nest, dump -> load, dict form) and seeded fromRandom",
+            "Generated rectangular nests of depth 1-4 (all-default, non-zero defaults, floats) and tensors derived by "
+            "swizzle / flatten / split chains (tuple coordinates, tuple shapes); content, shape, rank ids, names checked "
+            "after every conversion; rank-0 enumerated; fromRandom reproducibility, bounds and density-1 fill.",
+            "YAML / dict forms carry no default (documented Todo): defaults are re-applied before comparing."),
     "C18": ("Hypothesis PBT + exhaustive small domain: footprint sums recomputed from a raw tree walk",
             "Generated tensors (depth 1-3, explicit defaults, empty sub-fibers, all build routes) x random per-rank format "
             "specifications with missing fields; every Format query compared with sums over a raw walk; all trees over "
             "tiny shapes x all C/U assignments enumerated with place-value bit widths.",
             "Trusts the raw walk of Fiber.coords/payloads and declared (authoritative) shapes; depth<=3, shapes<=5."),
+    "C19": ("Hypothesis PBT: independent two-finger / skip-ahead / leader-follower counters and merge-cost model, "
+            "batch-invariance metamorphic relation",
+            "Generated sequences of 1-4 consecutive fiber pairs under 0-2 outer ranks, traced through a & b and fed to each "
+            "model under four batchings; totals compared with an independent merge walk; numSwaps against a closed form "
+            "(finite latency) and a priority-queue simulation (latency N), invariant under payload changes.",
+            "Outer coordinates strictly increasing; swap tensors canonical (no empty sub-fibers)."),
+    "C20": ("Exhaustive small tensors + Hypothesis PBT x all 3^depth descriptors: independent layout decoder and "
+            "handle-API scan",
+            "Every zero/non-zero pattern over small shapes and generated nests up to 70 wide, each under all 3^depth U/C/B "
+            "descriptors with and without an imposed shape; output arrays decoded by a decoder written from the format "
+            "descriptions, each encoded fiber scanned through its handle API, coordToHandle and getSize checked.",
+            "Canonical fromUncompressed tensors with default 0; stub cache object; codec stdout suppressed."),
 }
 
 
